@@ -247,10 +247,18 @@ def check_flow(flow, aspire, case, lo, hi, data, stage, where, viol, counters):
             return None
         integral = float(np.sum(wts * np.exp(lp)))
         counters["integrals_evaluated"] += 1
-        if 1.0 - p_clip - sig_clip - p_tail - tol <= integral <= 1.0 + tol:
+        # Inside the documented clipping margin log_prob evaluates the clipped point, so what the quadrature collects over the two
+        # strips next to each bound is (strip width) x (density at the clip point), not the flow's mass there: it may fall short of
+        # it (p_clip, measured from draws, relaxes the lower side) or exceed it (the strips' own contribution relaxes the upper side)
+        strip = 0.0
+        if bounded:
+            un = (pts - lo) / (hi - lo)
+            in_strip = np.any((un < 1e-6) | (un > 1 - 1e-6), axis=1)
+            strip = float(np.sum(wts[in_strip] * np.exp(lp[in_strip])))
+        if 1.0 - p_clip - sig_clip - p_tail - tol <= integral <= 1.0 + tol + strip:
             break
         counters["integrals_refined"] += 1
-    if not (1.0 - p_clip - sig_clip - p_tail - tol <= integral <= 1.0 + tol):
+    if not (1.0 - p_clip - sig_clip - p_tail - tol <= integral <= 1.0 + tol + strip):
         viol.append(
             {
                 "mech": "C03/density-not-normalised-in-native-coordinates",
